@@ -163,7 +163,13 @@ def stmt_writes(body, field):
         if s["k"] != "assign":
             continue
         pl = s["place"]
-        if any(p["k"] == "field" and p["n"] == field for p in pl["p"]):
+        direct = any(p["k"] == "field" and p["n"] == field for p in pl["p"])
+        via_alias = False
+        if not direct and pl["p"] and pl["p"][0]["k"] == "deref":
+            # write through a `&mut` alias of the field: (*alias).x = ..
+            pe = body.rec_place(pl, bi, si)
+            via_alias = field in fields_path(pe)[1]
+        if direct or via_alias:
             out.append(("assign", bi, si, body.rec_place(pl, bi, si), body.rec_rvalue(s["rv"], bi, si)))
         rv = s["rv"]
         if rv["k"] in ("ref", "rawptr") and rv["mut"] and any(p["k"] == "field" and p["n"] == field for p in rv["place"]["p"]):
